@@ -30,6 +30,68 @@ var fixedChoices = func() map[string]int {
 	return m
 }()
 
+func secretVars(ts []*Term) map[int]bool {
+	m := map[int]bool{}
+	var rec func(t *Term)
+	seen := map[int]bool{}
+	rec = func(t *Term) {
+		if seen[t.id] {
+			return
+		}
+		seen[t.id] = true
+		if t.Op == OpVar {
+			m[t.id] = true
+		}
+		for _, a := range t.A {
+			rec(a)
+		}
+	}
+	for _, t := range ts {
+		rec(t)
+	}
+	return m
+}
+
+func containsKeystream(t *Term) bool {
+	switch t.Op {
+	case OpUF:
+		return strings.HasPrefix(t.Name, "aesctr_")
+	case OpExtract, OpConcat:
+		for _, a := range t.A {
+			if containsKeystream(a) {
+				return true
+			}
+		}
+	}
+	return false
+}
+
+// mentions reports whether t depends on a secret variable; with masked=true,
+// occurrences below (x XOR keystream) and below hash/HMAC applications do not count.
+func mentions(t *Term, sec map[int]bool, masked bool, memo map[int]bool) bool {
+	if r, ok := memo[t.id]; ok {
+		return r
+	}
+	r := false
+	switch {
+	case t.Op == OpVar:
+		r = sec[t.id]
+	case masked && t.Op == OpXor && (containsKeystream(t.A[0]) || containsKeystream(t.A[1])):
+		r = false
+	case masked && t.Op == OpUF && (strings.HasPrefix(t.Name, "sha") || strings.HasPrefix(t.Name, "hmac_")):
+		r = false
+	default:
+		for _, a := range t.A {
+			if mentions(a, sec, masked, memo) {
+				r = true
+				break
+			}
+		}
+	}
+	memo[t.id] = r
+	return r
+}
+
 func prfExpand(seed []byte, n int) []byte {
 	var out []byte
 	ctr := byte(0)
@@ -197,6 +259,27 @@ func registerVAPI(I map[string]intrinsicFn) {
 		w.orderHint = w.concInt(a[0], "hint") != 0
 		return nil
 	}
+	// vMentions(out, secret): does any byte term of out depend on a secret symbol at all?
+	I[P+"vMentions"] = func(w *Worker, fn *ssa.Function, a []Value) Value {
+		sec := secretVars(w.sliceTerms(a[1]))
+		for _, t := range w.sliceTerms(a[0]) {
+			if mentions(t, sec, false, map[int]bool{}) {
+				return w.tc.True
+			}
+		}
+		return w.tc.False
+	}
+	// vLeaks(out, secret): does any byte term of out depend on a secret symbol other
+	// than through XOR with an AES-CTR keystream byte (or through a hash/HMAC)?
+	I[P+"vLeaks"] = func(w *Worker, fn *ssa.Function, a []Value) Value {
+		sec := secretVars(w.sliceTerms(a[1]))
+		for _, t := range w.sliceTerms(a[0]) {
+			if mentions(t, sec, true, map[int]bool{}) {
+				return w.tc.True
+			}
+		}
+		return w.tc.False
+	}
 	I[P+"vBigStrip"] = func(w *Worker, fn *ssa.Function, a []Value) Value {
 		w.bigStripMax = w.concInt(a[0], "strip")
 		return nil
@@ -307,6 +390,19 @@ func registerVAPI(I map[string]intrinsicFn) {
 	I[P+"vHeapHolds"] = func(w *Worker, fn *ssa.Function, a []Value) Value {
 		needle := w.sliceTerms(a[1])
 		return w.heapHolds(a[0], needle)
+	}
+	I[P+"vHeapMentions"] = func(w *Worker, fn *ssa.Function, a []Value) Value {
+		sec := secretVars(w.sliceTerms(a[1]))
+		found := false
+		memo := map[int]bool{}
+		w.heapWalk(a[0], func(ts []*Term) {
+			for _, t := range ts {
+				if mentions(t, sec, false, memo) {
+					found = true
+				}
+			}
+		})
+		return w.tc.Bool(found)
 	}
 	I[P+"vGlobalsFrozen"] = func(w *Worker, fn *ssa.Function, a []Value) Value {
 		w.freezeGlobals()
@@ -442,6 +538,8 @@ var errorIface = types.Universe.Lookup("error").Type().Underlying().(*types.Inte
 
 func (w *Worker) heapHolds(root Value, needle []*Term) *Term {
 	tc := w.tc
+	w.lazyCmp = true
+	defer func() { w.lazyCmp = false }()
 	if len(needle) == 0 {
 		return tc.False
 	}
@@ -529,7 +627,14 @@ func (w *Worker) heapHolds(root Value, needle []*Term) *Term {
 				visit(e)
 			}
 		case BigVal:
-			// numeric comparison with the needle read as a big-endian number
+			// numeric comparison with the needle read as a big-endian number; values
+			// too narrow to hold a needle with a non-zero first byte are skipped
+			// (harnesses assume the first byte of a secret is non-zero)
+			if bw := bigWidth(x) - 1; bw <= 8*(len(needle)-1) || (x.T != nil && bw > 8*len(needle)+8) {
+				// (a symbolic value of a much wider type, e.g. a DH public value, is not
+				// a copy of the secret; only an unconstrained model could make them equal)
+				return
+			}
 			nb := BigVal{T: tc.Zext(w.concatBytes(needle), 8*len(needle)+1)}
 			nb = w.normBig(nb)
 			hits = append(hits, tc.Eq(w.bigCmp(x, nb), tc.Const(64, 0)))
@@ -549,6 +654,74 @@ func (w *Worker) heapHolds(root Value, needle []*Term) *Term {
 	}
 	visit(root)
 	return tc.Or(hits...)
+}
+
+// heapWalk calls f on every byte sequence reachable from root.
+func (w *Worker) heapWalk(root Value, f func(ts []*Term)) {
+	seenPtr := map[Ptr]bool{}
+	seenArr := map[*Value]bool{}
+	var visit func(v Value)
+	visitElems := func(elems []Value) {
+		if len(elems) == 0 || seenArr[&elems[0]] {
+			return
+		}
+		seenArr[&elems[0]] = true
+		var seq []*Term
+		for _, e := range elems {
+			if te, ok := e.(*Term); ok {
+				seq = append(seq, te)
+			} else {
+				visit(e)
+			}
+		}
+		if len(seq) > 0 {
+			f(seq)
+		}
+	}
+	visit = func(v Value) {
+		switch x := v.(type) {
+		case Ptr:
+			if x == nil || seenPtr[x] {
+				return
+			}
+			seenPtr[x] = true
+			visit(*x)
+		case Struct:
+			for _, fl := range x {
+				visit(fl)
+			}
+		case Array:
+			visitElems([]Value(x))
+		case Slice:
+			if x != nil {
+				visitElems([]Value(x[:cap(x)]))
+			}
+		case Str:
+			f(w.strTerms(x))
+		case Iface:
+			if x.T != nil {
+				visit(x.V)
+			}
+		case *Closure:
+			for _, e := range x.Env {
+				visit(e)
+			}
+		case Tuple:
+			for _, e := range x {
+				visit(e)
+			}
+		case BigVal:
+			if x.T != nil {
+				f([]*Term{x.T})
+			}
+		case *Term:
+			f([]*Term{x})
+		case *HashObj:
+			f(x.buf)
+			f(x.key)
+		}
+	}
+	visit(root)
 }
 
 // freezeGlobals records every slot reachable from package-level variables of
